@@ -56,6 +56,7 @@ impl World for W6 {
                     Batch { name: "sequential-core", quick: 1_500, thorough: 60_000, faulty: false },
                     Batch { name: "sequential-membership", quick: 1_000, thorough: 40_000, faulty: false },
                     Batch { name: "sequential-faults", quick: 2_000, thorough: 80_000, faulty: true },
+                    Batch { name: "sequential-failover", quick: 2_000, thorough: 80_000, faulty: true },
                     Batch { name: "interleaved-core", quick: 3_000, thorough: 150_000, faulty: true },
                     Batch { name: "interleaved-all", quick: 2_500, thorough: 120_000, faulty: true },
                     Batch { name: "reply-loss", quick: 1_000, thorough: 40_000, faulty: true },
